@@ -47,19 +47,42 @@ def mineral_spec(min_n=2, max_n=40, regimes=(4, 6), fabrics=range(6), explicit_m
             }
         )
     ]
-    if allow_default:
-        opts.append(
-            st.fixed_dictionaries(
-                {
-                    "pf": st.sampled_from(list(fabrics)),
-                    "regime": st.sampled_from(list(regimes)),
-                    "init": st.just("default"),
-                    "n": st.integers(min_n, max_n),
-                    "seed": gen.small_seed,
-                }
-            )
+    # a texture written by hand as 0/+-1 direction-cosine matrices: an integer-typed array
+    n_lo = max(min_n, 1)
+    opts.append(
+        st.fixed_dictionaries(
+            {
+                "pf": st.sampled_from(list(fabrics)),
+                "regime": st.sampled_from(list(regimes)),
+                "init": st.just("given"),
+                "tex": st.fixed_dictionaries(
+                    {
+                        "fam": st.just("explicit"),
+                        "rots": st.lists(
+                            st.fixed_dictionaries({"k": st.just("ax"), "i": st.integers(0, 23)}),
+                            min_size=n_lo,
+                            max_size=max(min(explicit_max, max_n), n_lo),
+                        ),
+                    }
+                ),
+                "vol": gen.volume_spec(),
+                "layout": st.just("int"),
+            }
         )
-    return st.one_of(*opts)
+    )
+    given, int_typed = opts
+    if not allow_default:
+        return st.one_of(given, given, given, given, int_typed)
+    default = st.fixed_dictionaries(
+        {
+            "pf": st.sampled_from(list(fabrics)),
+            "regime": st.sampled_from(list(regimes)),
+            "init": st.just("default"),
+            "n": st.integers(min_n, max_n),
+            "seed": gen.small_seed,
+        }
+    )
+    return st.one_of(given, default, given, default, given, int_typed)
 
 
 def param_spec(chi=None, M=None):
@@ -161,6 +184,13 @@ def relayout(A, f, layout):
         return np.asfortranarray(A), f
     if layout == "moveaxis":  # component-first storage (3, 3, n) viewed as (n, 3, 3)
         return np.moveaxis(np.ascontiguousarray(np.moveaxis(A, 0, -1)), -1, 0), f
+    if layout == "int":
+        # integer dtype where the values allow it (axis-aligned orientations; a lone grain's volume)
+        if np.all(A == np.round(A)):
+            A = A.astype(np.int64)
+        if np.all(f == np.round(f)):
+            f = f.astype(np.int64)
+        return A, f
     if layout == "strided":
         A2 = np.repeat(A, 2, axis=0)[::2]
         f2 = np.repeat(f, 2)[::2]
@@ -256,6 +286,10 @@ class Flow:
         if not (self.time_dependent or self.position_dependent):
             if self._const is None:
                 self._const = self.s * self.Lhat_x(0.0, self.X(0.0))
+                if np.all(self._const == np.round(self._const)) and np.abs(self._const).max() < 2**31:
+                    # integral entries (e.g. unit simple shear written as [[0, 2, 0], ...]): handed
+                    # over with the integer dtype such a literal has
+                    self._const = self._const.astype(np.int64)
             out = self._const
         else:
             out = self.s * self.Lhat_x(self.tau_of(t), x)
